@@ -22,7 +22,10 @@ import impl
 import lib
 from lib import coq_bool, coq_list, coq_nat
 
-COQ_TARGETS = ["theories/Proofs/UnionLemmas.vo", "theories/Model/UnionEq.vo"]
+COQ_TARGETS = ["theories/Proofs/UnionLemmas.vo", "theories/Model/UnionEq.vo", "theories/Props/C08Bridge.vo"]
+# the union step of the core value model IS this model (Props/C08Bridge.v): C08's statements hold of Core.unm / Core.mar
+BRIDGE_THEOREMS = ["C08Bridge_embedding_faithful", "C08Bridge_unmarshal", "C08Bridge_marshal", "C08Bridge_first_acceptor",
+                   "C08Bridge_none", "C08Bridge_raises_value", "C08Bridge_marshal_none", "C08Bridge_marshal_first_acceptor"]
 THEOREMS = ["C08_every_rejection_swallowed", "C08_rejects_is_swallowed", "C08_first_acceptor", "C08_order",
             "C08_none", "C08_none_first_harmless", "C08_raises_value", "C08_value_only_if_all_reject",
             "C08_nonetype_routine", "C08m_none", "C08m_first_acceptor", "C08m_raises_value",
@@ -276,6 +279,7 @@ def prove(run: lib.Run):
             run.oblige("coqchk:-o TLRun.C08 (no axioms, nothing assumed)", clean, txt[-400:] if not clean else "")
             run.checker_cmds.append("coqchk -o -Q coq/theories TL -Q build/C08/thorough TLRun TLRun.C08")
             run.extra_cov["coqchk"] = " ".join(txt.split())[-300:]
+    run.check_props("Props/C08Bridge.v", BRIDGE_THEOREMS)
     run.assumptions += [
         "C08: member routines, the value universe and serdes.decode are abstract (Section variables); the theorems "
         "quantify over all of them. That ordered_routines[i] behaves like a fresh unmarshaller(A_i) (context lookup) is "
